@@ -77,9 +77,9 @@ type c13tok struct {
 	node *c13n // the node this token anchors (nil for punctuation)
 }
 
-func tk(s string) c13part       { return c13part{tok: s} }
-func anchor(s string) c13part   { return c13part{tok: s, anchor: true} }
-func kid(n *c13n) c13part       { return c13part{child: n} }
+func tk(s string) c13part     { return c13part{tok: s} }
+func anchor(s string) c13part { return c13part{tok: s, anchor: true} }
+func kid(n *c13n) c13part     { return c13part{child: n} }
 func c13leaf(kind, typ, text string) *c13n {
 	return &c13n{kind: kind, typ: typ, parts: []c13part{anchor(text)}}
 }
